@@ -20,7 +20,7 @@ WRITABLE = [("Signal", None), ("Variable", None), ("Port", "OUT"), ("Port", "INO
 
 
 def qname(q):
-    return q[0] if q[1] is None else f"Port.{q[1]}"
+    return {"LSignal": "local Signal(init)", "LVariable": "local Variable(init)"}.get(q[0], q[0]) if q[1] is None else f"Port.{q[1]}"
 
 
 # ---------------------------------------------------------------------------------------------
@@ -371,6 +371,39 @@ def py_check_structure(env, q, kind, W, chain, iter_elem):
     pos = refspec_positions(v, rootm)
     if pos != list(E):
         problems.append(("refspec", f"_root + _ref_spec designate root bits {pos}, the view denotes bits {list(E)}"))
+    # sibling views must not affect each other: the view, its cast views and a second copy of the view are all
+    # resolved, then each one in turn gets the in-place simplify() the backend applies when it formats a reference,
+    # and all of them are resolved again
+    if iter_elem is None and model[0] != "Bit" and not problems:
+        try:
+            sibs = [("view", v), ("view.unsigned", v.unsigned), ("view.signed", v.signed), ("view.bitvector", v.bitvector)]
+            v2 = root
+            for op in chain:
+                v2 = apply_py(v2, op)
+            sibs.append(("second copy", v2))
+        except BaseException as e:  # noqa
+            return problems, None
+        for first in range(len(sibs)):
+            if first:  # fresh objects for every formatting order
+                r2 = array_root(q) if kind == "ARR" else make_root(env, q, kind, W, 0)
+                w = r2
+                for op in chain:
+                    w = apply_py(w, op)
+                w2 = r2
+                for op in chain:
+                    w2 = apply_py(w2, op)
+                sibs = [("view", w), ("view.unsigned", w.unsigned), ("view.signed", w.signed), ("view.bitvector", w.bitvector),
+                        ("second copy", w2)]
+            order = sibs[first:] + sibs[:first]
+            for name, obj in order:
+                for sp in obj._ref_spec:
+                    sp.simplify()
+                for n2, o2 in sibs:
+                    p2 = refspec_positions(o2, rootm)
+                    if p2 != list(E):
+                        problems.append(("sibling", f"after the reference of '{name}' was simplified (as the backend does when it "
+                                                    f"formats it) '{n2}' designates root bits {p2} instead of {list(E)}"))
+                        return problems, None
     return problems, None
 
 
@@ -657,12 +690,101 @@ def render_array(q, W, chain, term, mode, model):
     return "\n".join(L) + "\n", model, k
 
 
+LOCAL_Q = [("LSignal", None), ("LVariable", None)]  # constructed INSIDE the clocked body from a run-time value
+SIB_TERMS = ("sib", "sibR", "sibC", "sibRC")         # siblings together; R = reversed statement order, C = clocked
+CLOCK = "@std.sequential(std.Clock(self.clk))"
+
+
+def render_local(q, kind, W, chain, term, mode, model):
+    """root = Signal/Variable constructed in the clocked process from an input; read in the same activation through
+    the view and as a whole (output f).  Per the documentation of Signal.__init__ such an initialisation 'takes place
+    immediately like variable assignment', so in that activation the object reads as the input."""
+    mkind, E = model
+    k = len(E)
+    ct = chain_text(chain)
+    rt = type_text(kind, W)
+    ctor = "Signal" if q[0] == "LSignal" else "Variable"
+    L = [HEADER, "class T(Entity):", "    clk = Port.input(Bit)"]
+    if mode == "read":
+        vt = type_text("BV", k) if term == "iter" else type_text(mkind, k)
+        L += [f"    x = Port.input({rt})", f"    o = Port.output({vt})", f"    f = Port.output({rt})"]
+        use = [f"self.o <<= r{ct}"] if term == "whole" else [f"for i, b in enumerate(r{ct}):", "    self.o[i] <<= b"]
+        body = [f"r = {ctor}[{rt}](self.x)"] + use + ["self.f <<= r"]
+    else:
+        if q[0] != "LVariable":
+            return None  # a signal assignment to a local signal is not readable in the same activation: left open
+        xt = type_text("BV", k) if term == "iter" else type_text(mkind, k)
+        L += [f"    d = Port.input({rt})", f"    x = Port.input({xt})", f"    o = Port.output({rt})"]
+        wr = [f"v = r{ct}", "v @= self.x"] if term == "whole" else [f"for i, b in enumerate(r{ct}):", "    b @= self.x[i]"]
+        body = [f"r = Variable[{rt}](self.d)"] + wr + ["self.o <<= r"]
+    L += ["    def architecture(self):", "        " + CLOCK, "        def p():"] + ["            " + b for b in body]
+    return "\n".join(L) + "\n", model, k
+
+
+SIB_OUTS = [("o0", "v", None), ("o1", "v.unsigned", "U"), ("o2", "v.signed", "S"), ("o3", "v.bitvector", "BV"), ("o4", None, None)]
+
+
+def render_siblings(q, kind, W, chain, term, model):
+    """one design that reads the view, each of its cast views and a second copy of the view"""
+    mkind, E = model
+    k = len(E)
+    if mkind == "Bit" or kind == "ARR":
+        return None
+    clocked = term.endswith("C")
+    rev = "R" in term
+    ct = chain_text(chain)
+    rt = type_text(kind, W)
+    L = [HEADER, "class T(Entity):", f"    x = Port.input({rt})"]
+    if clocked:
+        L.append("    clk = Port.input(Bit)")
+    for name, _, kd in SIB_OUTS:
+        L.append(f"    {name} = Port.output({type_text(kd or mkind, k)})")
+    pre, fill_conc, fill_seq = [], [], []
+    if q == ("Port", "IN"):
+        R = "self.x"
+    elif q[0] == "Signal":
+        pre, fill_conc, R = [f"r = Signal[{rt}]()"], ["r.next = self.x"], "r"
+    elif q[0] == "Variable":
+        pre, fill_seq, R = [f"r = Variable[{rt}]()"], ["r.value = self.x"], "r"
+    elif q[0] == "LSignal":
+        if not clocked:
+            return None
+        fill_seq, R = [f"r = Signal[{rt}](self.x)"], "r"
+    else:
+        return None
+    stm = [f"self.{name} <<= {expr or (R + ct)}" for name, expr, _ in SIB_OUTS]
+    if rev:
+        stm.reverse()
+    body = fill_seq + [f"v = {R}{ct}"] + stm
+    if clocked:
+        ctx = CLOCK
+    else:
+        ctx = "@std.sequential" if q[0] == "Variable" else "@std.concurrent"
+        if not fill_seq and not clocked and fill_conc:
+            body, fill_conc = fill_conc + body, []
+    L.append("    def architecture(self):")
+    L += ["        " + p for p in pre]
+    L += ["        " + ctx, "        def p():"] + ["            " + b for b in body]
+    if fill_conc:
+        L += ["        @std.concurrent", "        def c0():"] + ["            " + b for b in fill_conc]
+    return "\n".join(L) + "\n", model, k
+
+
 def check_emitted(q, kind, W, chain, term, mode, full_background=True):
     """compile + simulate one wrapper; returns dict(status=..., ...)"""
     from ..cohdl_util import compile_source
     from ..vhdl.elab import compile_design
 
-    r = render(q, kind, W, chain, term, mode)
+    if term in SIB_TERMS or q in LOCAL_Q:
+        model = root_model(kind, W)
+        for op in chain:
+            model = apply_model(model, op)
+        if model[0] == "ARR" or kind == "ARR" or (term == "iter" and model[0] == "Bit") or (term in SIB_TERMS and mode != "read"):
+            return {"status": "na"}
+        r = render_siblings(q, kind, W, chain, term, model) if term in SIB_TERMS else \
+            (render_local(q, kind, W, chain, term, mode, model) if term in ("whole", "iter") else None)
+    else:
+        r = render(q, kind, W, chain, term, mode)
     if r is None:
         return {"status": "na"}
     src, model, k = r
@@ -690,7 +812,57 @@ def check_emitted(q, kind, W, chain, term, mode, full_background=True):
     sim = d.sim()
     evals = 0
     seen = set()
-    if mode == "read" and term == "op":
+    if "clk = Port.input" in src:
+        sim.set("clk", 0)
+    if term in SIB_TERMS:
+        clocked = term.endswith("C")
+        for xv in range(1 << W):
+            sim.set("x", xv)
+            if clocked:
+                sim.clock("clk")
+            exp = extract(xv, E)
+            evals += 1
+            for name, expr, _ in SIB_OUTS:
+                got = sim.get(name)
+                got = int(got) if got is not None else None
+                seen.add(got)
+                if got != exp:
+                    return {"status": "mismatch", "src": src, "vhdl": res.vhdl, "evals": evals, "observed": None,
+                            "what": f"x={xv:0{W}b}: output {name} (= {expr or 'second copy of the view'}) reads {fmt(got, k)}, "
+                                    f"the view denotes bits {E} = {exp:0{k}b}"}
+    elif q in LOCAL_Q and mode == "read":
+        # a de Bruijn walk: every ordered pair (previous value, current value) occurs in consecutive clocks
+        walk = debruijn2(1 << W)
+        for i, xv in enumerate(walk):
+            x1 = x2 = walk[i - 1] if i else xv
+            if True:
+                if True:
+                    sim.set("x", xv)
+                    sim.clock("clk")
+                    evals += 1
+                    got, full = sim.get("o"), sim.get("f")
+                    got = int(got) if got is not None else None
+                    full = int(full) if full is not None else None
+                    seen.add(got)
+                    exp = extract(xv, E)
+                    if full != xv or got != exp:
+                        return {"status": "mismatch", "src": src, "vhdl": res.vhdl, "evals": evals, "observed": None,
+                                "what": f"clock {i} of the walk, previous x={x1:0{W}b}, x={xv:0{W}b}: whole object reads {fmt(full, W)}, "
+                                        f"view reads {fmt(got, k)}; the view denotes bits {E} of the same object = {exp:0{k}b}"}
+    elif q in LOCAL_Q:
+        for dv in range(1 << W):
+            for xv in range(1 << k):
+                sim.set_many({"d": dv, "x": xv})
+                sim.clock("clk")
+                got = sim.get("o")
+                got = int(got) if got is not None else None
+                evals += 1
+                seen.add(got)
+                exp = insert(dv, E, xv)
+                if got != exp:
+                    return {"status": "mismatch", "src": src, "vhdl": res.vhdl, "evals": evals, "observed": None,
+                            "what": f"d={dv:0{W}b} x={xv:0{k}b}: local variable becomes {fmt(got, W)}, writing the view (bits {E}) must give {exp:0{W}b}"}
+    elif mode == "read" and term == "op":
         mask = (1 << k) - 1
         for xv in range(1 << W):
             for yv in range(1 << k):
@@ -745,6 +917,26 @@ def _control_accepts(q, mkind, k, term):
         r = render(q, mkind, k, (), term, "read")
         _control_cache[key] = bool(r) and compile_source(r[0], entity="T")[0].ok
     return _control_cache[key]
+
+
+def debruijn2(n):
+    """cyclic sequence over range(n) in which every ordered pair occurs once as neighbours (+ first element repeated)"""
+    a = [0] * (2 * n)
+    seq = []
+
+    def db(t, p):
+        if t > 2:
+            if 2 % p == 0:
+                seq.extend(a[1:p + 1])
+        else:
+            a[t] = a[t - p]
+            db(t + 1, p)
+            for j in range(a[t - p] + 1, n):
+                a[t] = j
+                db(t + 1, t)
+
+    db(1, 1)
+    return seq + seq[:1]
 
 
 def fmt(v, k):
